@@ -111,6 +111,10 @@ void h_drain(void)
                    "D6 closed counter, gauge and notifications move by exactly the number of open sessions met in the table");
   __CPROVER_assert(P0.cur != GIT.open_seen || E._atomicStats.sessionsCurrent == 0, "D7 the gauge returns to zero when it counted exactly the open sessions");
   __CPROVER_assert((P0.idx_has || !E._peerIndex.has) && (P0.tag_has || !E._tags.has), "D10 no index entry or tag appears");
+  /* D16: the index invariant udp_recv assumes on entry (INV Ia: an index entry names a session that is in the table, open, listener-side, keyed by that key) holds in the
+   * post-state - with the table emptied that means: no entry naming a session this drain closed survives, so after start() the peer's next datagram causes an accept */
+  __CPROVER_assert(!(E._peerIndex.has && E._peerIndex.val == GSID) || (E._sessions.has && !w->closed && w->role == Role_ServerPeer && w->pkey == GPK),
+                   "D16 shutdownDrain re-establishes the index invariant: _peerIndex holds no entry that points at a session it closed (nothing is dispatched to a dead id after a restart)");
   __CPROVER_assert(!G.cl.gfd_closed || !E._tags.has, "D13 (stale tag) a descriptor that shutdownDrain closed keeps no tag: after a restart the reused fd number cannot be dispatched to a destroyed session");
   __CPROVER_assert(G.cl.gfd_closed || E._tags.has == P0.tag_has, "D14 a descriptor that was not closed keeps its tag (listener-shared sessions: no fd close, no tag erase)");
   __CPROVER_assert(!(open && W0.fd == GFD && W0.role == Role_ClientConnected) || G.cl.gfd_closed, "D15 an open connected-client session has its own descriptor closed (and, D13, its tag erased); a listener-side session closes nothing (bounded cross-check D8)");
